@@ -16,6 +16,7 @@ import (
 	"database/sql/driver"
 	"errors"
 	"io"
+	"reflect"
 )
 
 type mDB struct {
@@ -723,6 +724,44 @@ func SQL_Rows_Columns(p *sql.Rows) ([]string, error) {
 }
 
 func SQL_Rows_NextResultSet(p *sql.Rows) bool { return false }
+
+type mColumnType struct {
+	name     string
+	scanType reflect.Type
+	dbType   string
+}
+
+func wrapColumnType(m *mColumnType) *sql.ColumnType   { panic("engine intrinsic") }
+func unwrapColumnType(p *sql.ColumnType) *mColumnType { panic("engine intrinsic") }
+
+func SQL_Rows_ColumnTypes(p *sql.Rows) ([]*sql.ColumnType, error) {
+	r := unwrapRows(p)
+	if r.closed {
+		return nil, errors.New("sql: Rows are closed")
+	}
+	names := r.rowsi.Columns()
+	out := make([]*sql.ColumnType, len(names))
+	for i, n := range names {
+		m := &mColumnType{name: n}
+		if st, ok := r.rowsi.(driver.RowsColumnTypeScanType); ok {
+			m.scanType = st.ColumnTypeScanType(i)
+		} else {
+			m.scanType = reflect.TypeOf(new(interface{})).Elem()
+		}
+		if dt, ok := r.rowsi.(driver.RowsColumnTypeDatabaseTypeName); ok {
+			m.dbType = dt.ColumnTypeDatabaseTypeName(i)
+		}
+		out[i] = wrapColumnType(m)
+	}
+	return out, nil
+}
+
+func SQL_ColumnType_Name(p *sql.ColumnType) string             { return unwrapColumnType(p).name }
+func SQL_ColumnType_ScanType(p *sql.ColumnType) reflect.Type   { return unwrapColumnType(p).scanType }
+func SQL_ColumnType_DatabaseTypeName(p *sql.ColumnType) string { return unwrapColumnType(p).dbType }
+func SQL_ColumnType_Nullable(p *sql.ColumnType) (nullable, ok bool) {
+	return false, false
+}
 
 func SQL_Row_Scan(p *sql.Row, dest ...interface{}) error {
 	r := unwrapRow(p)
